@@ -69,6 +69,13 @@ CHECKS['C18'] = dict(cat='proof', ref='DESIGN.md section 3 C18',
 CHECKS['C20'] = dict(cat='proof', ref='DESIGN.md section 3 C20',
     text='Row non-interference by self-composition of every real solver step (B=2): changing row 1 of y0, dW, U, A leaves row 0 identical; permutation equivariance; SDELogqp; Brownian noise drawn at the full sample shape with per-node seeds.',
     note='T1,T3,T6,T7 (row-wise user functions are the hypothesis); dimension-bounded B=2,d=2,m<=2; adaptive excluded by the property', tech=XDOM)
+CHECKS['C08'] = dict(cat='proof', ref='DESIGN.md section 3 C08',
+    text='Differential obligation between the faithful autograd model (detach / no_grad / create_graph=False cut dependence) and ideal differentiation: for every real solver step (all noise types, grad-free Milstein, y0 requiring grad or not) the first-order dependence of y1 and of the carried state on y0 and on the parameters is identical; bounded stand-ins run the real integrate (fixed and adaptive with scripted accept/reject).',
+    note='T1,T3 (autograd axiomatised),T6,T7; dimension-bounded B=1,d=2,m<=2; integrate-level checks bounded and not counted as proved; FD agreement itself is T3',
+    tech=XDOM + ' with Taylor-mode autograd model')
+CHECKS['C16'] = dict(cat='proof', ref='DESIGN.md section 3 C16',
+    text='Every supported combination of {f, g, f_and_g, g_prod, f_and_g_prod} and renamed methods, wrapped by the real ForwardSDE / RenameMethodsSDE, gives the identical step result for every solver when the documented fall-back rules can derive what the solver needs, and an explicit RuntimeError otherwise; derived operators (g_prod, g dg v for diagonal/default/additive, both Levy-area Jacobian implementations) equal their definitions obtained by formal differentiation.',
+    note='T1,T3,T6,T7; dimension-bounded B=2,d=2,m=2', tech=XDOM)
 REASONS = {}
 checks = []
 for p in props:
